@@ -58,7 +58,7 @@ def cases(thorough):
                 yield dict(base, block="T", dz=dz, dx=0.2, resolution=10, operation="sum", origin=oo, direction="z")
                 yield dict(base, block="T", dz=dz, dx=1.0, resolution={"x": 4, "y": 4, "z": 2}, operation="mean", origin=oo, direction="z")
         # units: window in another unit than the positions
-        for wu, pu, box in [("m", "cm", 1.0), ("cm", "m", 4.0)]:
+        for wu, pu, box in [("m", "cm", 1.0), ("cm", "m", 4.0), ("kpc", "au", 4.0), ("kpc", "kpc", 2.0**-26), ("m", "m", 2.0**-30), ("cm", "pc", 2.0**10)]:
             for op in ("sum", "mean"):
                 yield dict(base, block="U", dz=1 / 2, dx=1.0, resolution=3, operation=op, origin=o, direction="z", win_unit=wu, pos_unit=pu, box=box)
         # block V: the kernels under map() on 2 and 3 virtual threads (static work split), depth resolutions that the
